@@ -113,4 +113,110 @@ def logOf (ops : List Op) : Hist := hist init [] ops
 /-- The model's answer to `op` issued after the history `ops`. -/
 def answer (ops : List Op) (op : Op) : Resp := (step (exec init ops) op).2
 
+/-! ## Awaiting watchers: wake-ups
+
+A client that sits in `stream.message().await` is not re-polled by anybody: its task is parked
+and runs again only when the waker it left behind is fired.  In tonic-health the chain is
+`Streaming::message` → response body → `WatchStream::poll_next(cx)` →
+`tokio_stream::wrappers::WatchStream` → `watch::Receiver::changed()`, which registers `cx`'s
+waker with the channel's `Notify`.  `Sender::send` bumps the version and calls
+`notify_waiters()`; dropping the `Sender` (what `clear_service_status` does by removing the
+table entry) sets the closed flag and calls `notify_waiters()` too.  Nothing else fires it.
+
+The model: a history is a list of `Item`s — the operations of `step` plus `await w` (a task is
+spawned that awaits the next message of stream `w`).  An awaiting task that finds nothing is
+*parked*.  An operation that notifies channel `i` (`notified`) makes every parked task whose
+stream listens on `i` poll again (`repoll`, exactly the `next` of `step`); a task whose poll
+delivers completes and is reported in `Out.woken`, a task whose poll is still pending parks
+again.  While a task holds the stream nobody else can poll it (`busy`); dropping the stream
+cancels the task. -/
+
+structure P where
+  h : H
+  /-- streams held by a parked task -/
+  parked : List Nat
+deriving Repr
+
+def pinit : P := ⟨init, []⟩
+
+/-- the channel stream `w` listens on -/
+def chanOf (s : H) (w : Nat) : Option Nat :=
+  match s.watchers[w]? with
+  | some (some wt) => some wt.chan
+  | _ => none
+
+/-- the channel whose `Notify` the operation fires: `send` on an existing entry, or the drop of
+its `Sender`; a first `set` creates a channel nobody listens on yet. -/
+def notified (s : H) : Op → Option Nat
+  | .set n _ => lookup n s.reg
+  | .clear n => lookup n s.reg
+  | _ => none
+
+/-- The parked tasks listening on channel `i` poll again, one after the other.  Returns the
+state afterwards and the polls made `(stream, answer)`. -/
+def repoll (i : Nat) : H → List Nat → H × List (Nat × Resp)
+  | h, [] => (h, [])
+  | h, w :: ws =>
+    if chanOf h w = some i then
+      ((repoll i (step h (.next w)).1 ws).1, (w, (step h (.next w)).2) :: (repoll i (step h (.next w)).1 ws).2)
+    else repoll i h ws
+
+/-- polls that delivered something: those tasks are done -/
+def wokenOf (polls : List (Nat × Resp)) : List (Nat × Resp) :=
+  polls.filter (fun p => decide (p.2 ≠ .pending))
+
+def stillParked (parked : List Nat) (polls : List (Nat × Resp)) : List Nat :=
+  parked.filter (fun w => !(wokenOf polls).any (fun p => p.1 == w))
+
+/-- `set` / `clear` / `check` / `watch` with awaiting watchers around: the operation itself,
+then the polls of the tasks it wakes.  Third component: see `pstepFull`. -/
+def pupdate (s : P) (o : Op) : P × Out × List Ev :=
+  match notified s.h o with
+  | none => (⟨(step s.h o).1, s.parked⟩, ⟨.plain (step s.h o).2, []⟩, [(o, (step s.h o).2)])
+  | some i =>
+    (⟨(repoll i (step s.h o).1 s.parked).1, stillParked s.parked (repoll i (step s.h o).1 s.parked).2⟩,
+      ⟨.plain (step s.h o).2, wokenOf (repoll i (step s.h o).1 s.parked).2⟩,
+      (o, (step s.h o).2) :: (repoll i (step s.h o).1 s.parked).2.map (fun p => (Op.next p.1, p.2)))
+
+/-- One item.  The third component is the list of `step` operations the item amounted to, in
+order (the item's own operation, then the polls of woken tasks): the parked layer adds no
+behaviour of its own, it only decides *when* `next` happens. -/
+def pstepFull (s : P) : Item → P × Out × List Ev
+  | .await w =>
+    if w ∈ s.parked then (s, ⟨.busy, []⟩, [])
+    else if (step s.h (.next w)).2 = .pending then
+      (⟨(step s.h (.next w)).1, w :: s.parked⟩, ⟨.parked, []⟩, [(.next w, (step s.h (.next w)).2)])
+    else
+      (⟨(step s.h (.next w)).1, s.parked⟩, ⟨.plain (step s.h (.next w)).2, []⟩,
+        [(.next w, (step s.h (.next w)).2)])
+  | .op (.next w) =>
+    if w ∈ s.parked then (s, ⟨.busy, []⟩, [])
+    else
+      (⟨(step s.h (.next w)).1, s.parked⟩, ⟨.plain (step s.h (.next w)).2, []⟩,
+        [(.next w, (step s.h (.next w)).2)])
+  | .op (.drop w) =>
+    (⟨(step s.h (.drop w)).1, s.parked.filter (fun x => x != w)⟩, ⟨.plain (step s.h (.drop w)).2, []⟩,
+      [(.drop w, (step s.h (.drop w)).2)])
+  | .op o => pupdate s o
+
+def pstep (s : P) (it : Item) : P × Out := ((pstepFull s it).1, (pstepFull s it).2.1)
+
+def pexec (s : P) : List Item → P
+  | [] => s
+  | it :: its => pexec (pstep s it).1 its
+
+def prun (s : P) : List Item → List Out
+  | [] => []
+  | it :: its => (pstep s it).2 :: prun (pstep s it).1 its
+
+/-- Every `step` operation a history with awaiting watchers amounts to, with its answer (oldest
+first). -/
+def pevents (s : P) : List Item → List Ev
+  | [] => []
+  | it :: its => (pstepFull s it).2.2 ++ pevents (pstep s it).1 its
+
+/-- The sequential history (operations of `step`, oldest first) that a history with awaiting
+watchers amounts to, from the initial state. -/
+def pops (items : List Item) : List Op := (pevents pinit items).map (·.1)
+
 end Health
